@@ -16,16 +16,6 @@ Import ListNotations.
 Local Open Scope Q_scope.
 
 (* ------------------------------------------------------------------------------------ *)
-(** * Facts read off the source agree with the model *)
-
-Lemma facts_agree_l :
-  src_stencil1 = stencil 1 /\ src_stencil2 = stencil 2 /\ src_fd_order = 4%nat /\
-  src_fd_call_plain = true /\ src_modes_before_rebuild = true /\ src_range_from_filtered = true /\
-  src_flag_is_function_mode = true /\ src_append_frac_table == 1 # 5 /\
-  src_append_frac_notable == 1 # 2 /\ src_skip_single_point = true.
-Proof. vm_compute. repeat split; reflexivity || discriminate. Qed.
-
-(* ------------------------------------------------------------------------------------ *)
 (** * Lists of rationals *)
 
 Lemma Qle_bool_false a b : Qle_bool a b = false <-> b < a.
@@ -256,11 +246,11 @@ Proof. intro H. split; [exact H|reflexivity]. Qed.
 Lemma Good_trans s1 s2 s3 : Good s1 s2 -> Good s2 s3 -> Good s1 s3.
 Proof. intros [_ E1] [H2 E2]. split; [exact H2|congruence]. Qed.
 
-Lemma init_inv k thr n0 a : (0 < thr)%nat -> Inv (init k thr n0 a).
+Lemma init_inv k thr n0 a : Inv (init k thr n0 a).
 Proof.
-  intro Ht. split.
+  split.
   - intro H. discriminate H.
-  - split; [reflexivity|]. intros _. exact Ht.
+  - split; [reflexivity|]. intro Ht. exact Ht.
 Qed.
 
 Lemma TInv_set_adapt s a c p : TInv s -> TInv (set_adapt s a c p).
@@ -997,4 +987,268 @@ Proof.
   destruct (select _ pts) as [|o out]; [eauto|].
   destruct (evalOOB_total s (o :: out) HI Hh Hlo Hhi) as [s' [ts E]]. rewrite E. eauto.
 Qed.
+
+(* ------------------------------------------------------------------------------------ *)
+(** * Derivative dispatch outside the table (finite differences of the out-of-bounds values) *)
+
+(** one stencil point, as [_evaluateOutOfBounds] answers it *)
+Definition oob3 (s : st) (q : Q) : tag :=
+  if mode_eqb (mlo s) NONE && mode_eqb (mhi s) NONE then dirtag q
+  else if Qle_bool (rmax s) q then side_tag s (mhi s) (rmax s) q
+  else if Qle_bool q (rmin s) then side_tag s (mlo s) (rmin s) q
+  else splineAt s 0 q.     (* a stencil point that reaches back inside the table *)
+
+Lemma evalOOB_pure3 s pts : adaptive s = false -> hasT s = true -> mlo s <> ERROR -> mhi s <> ERROR ->
+  evalOOB fin s pts = (s, Ok (map (oob3 s) pts)).
+Proof.
+  intros Ha Hh Hlo Hhi. unfold evalOOB.
+  replace (mode_eqb (mlo s) ERROR) with false
+    by (symmetry; destruct (mode_eqb (mlo s) ERROR) eqn:E; [apply mode_eqb_eq in E; congruence|reflexivity]).
+  cbn [andb]. rewrite Hh. cbn [negb orb]. unfold oob3.
+  destruct (mode_eqb (mlo s) NONE && mode_eqb (mhi s) NONE) eqn:EN.
+  - rewrite evalDirect_pure by exact Ha. reflexivity.
+  - rewrite (side_pure s (mlo s) (rmin s) (fun q => Qle_bool q (rmin s)) pts _ Ha Hlo).
+    rewrite (side_pure s (mhi s) (rmax s) (fun q => Qle_bool (rmax s) q) pts _ Ha Hhi).
+    f_equal. f_equal. apply map_ext. intro q.
+    destruct (Qle_bool (rmax s) q); [reflexivity|]. destruct (Qle_bool q (rmin s)); reflexivity.
+Qed.
+
+Lemma map_flat_map {A B C} (f : B -> C) (h : A -> list B) l :
+  map f (flat_map h l) = flat_map (fun x => map f (h x)) l.
+Proof. induction l as [|x r IH]; [reflexivity|]. cbn [flat_map]. rewrite map_app, IH. reflexivity. Qed.
+
+Lemma skipn_app_exact {A} (l1 l2 : list A) n : n = length l1 -> skipn n (l1 ++ l2) = l2.
+Proof. intros ->. rewrite skipn_app, skipn_all, Nat.sub_diag. reflexivity. Qed.
+
+Lemma column_flat {A B C} (g : C -> A -> B) (out : list A) j q : nth_error out j = Some q ->
+  forall zs, column (length zs) (length out) j (flat_map (fun z => map (g z) out) zs) =
+             map (fun z => g z q) zs.
+Proof.
+  intros Hj zs. induction zs as [|z r IH]; [reflexivity|].
+  cbn [length column flat_map map].
+  assert (Hl : (j < length (map (g z) out))%nat).
+  { rewrite map_length. apply nth_error_Some. congruence. }
+  rewrite (nth_error_app1 _ _ Hl), (map_nth_error _ _ _ Hj). cbn [app]. f_equal.
+  rewrite skipn_app_exact by (symmetry; apply map_length). exact IH.
+Qed.
+
+Lemma map_seq_eq {A B} (F : nat -> B) (G : A -> B) (l : list A) : forall a,
+  (forall j q, nth_error l j = Some q -> F (a + j)%nat = G q) -> map F (seq a (length l)) = map G l.
+Proof.
+  induction l as [|x r IH]; intros a H; [reflexivity|].
+  cbn [length seq map]. f_equal.
+  - rewrite <- (H 0%nat x eq_refl). f_equal. lia.
+  - apply IH. intros j q Hj. rewrite <- (H (S j) q Hj). f_equal. lia.
+Qed.
+
+Definition fd_tag (s : st) (n : nat) (dx q : Q) : dtag :=
+  DFD (map (fun z => oob3 s (Qred (q + inject_Z z * dx))) (stencil n)).
+
+(** the derivative's statement for ONE element *)
+Definition dspec (s : st) (n : nat) (dx q : Q) : dtag :=
+  if inrange s q then DOne (Spl n KIn q) else fd_tag s n dx q.
+
+Lemma fd_columns_spec s n dx out :
+  fd_columns n (length out) (map (oob3 s) (fd_pos n dx out)) = map (fd_tag s n dx) out.
+Proof.
+  unfold fd_columns, fd_pos. rewrite map_flat_map.
+  apply map_seq_eq. intros j q Hj. cbn [plus]. unfold fd_tag. f_equal.
+  rewrite (flat_map_ext _ (fun z => map (fun q0 => oob3 s (Qred (q0 + inject_Z z * dx))) out))
+    by (intro z; apply map_map).
+  apply (column_flat (fun z q0 => oob3 s (Qred (q0 + inject_Z z * dx))) out j q Hj).
+Qed.
+
+(** DERIVATIVE DISPATCH: element by element, the spline's derivative inside the range and the
+    finite-difference stencil over the out-of-bounds values (each stencil point answered by
+    the mode of ITS side; points reaching back inside by the spline) outside *)
+Lemma deriv_spec_l s n sh pts dx pos : Inv s -> hasT s = true -> adaptive s = false ->
+  mlo s <> ERROR -> mhi s <> ERROR -> (n = 1 \/ n = 2)%nat ->
+  derivative fin s n true sh pts dx pos = (s, Ok (oshape (cfg_k s) sh, map (dspec s n dx) pts)).
+Proof.
+  intros [HT _] Hh Ha Hlo Hhi Hn. unfold derivative. rewrite Hh. cbn [negb orb].
+  replace (2 <? n)%nat with false by (destruct Hn; subst; reflexivity).
+  rewrite map_map.
+  set (m' := fun q => negb (inrange s q)).
+  set (base := map (fun q => DOne (if inrange s q then splineAt s n q else Uninit)) pts).
+  assert (E : scatter (map m' pts) (map (fd_tag s n dx) (select (map m' pts) pts)) base =
+              map (dspec s n dx) pts).
+  { unfold base. rewrite scatter_map. apply map_ext. intro q. unfold m', dspec.
+    destruct (inrange s q) eqn:Eq; cbn [negb]; [|reflexivity].
+    f_equal. apply splineAt_in; auto. apply inrange_iff; exact Eq. }
+  destruct (select (map m' pts) pts) as [|o out] eqn:Es.
+  - rewrite <- E. cbn [map]. rewrite scatter_nil. reflexivity.
+  - unfold twice. rewrite !evalOOB_pure3 by assumption. rewrite fd_columns_spec, E. reflexivity.
+Qed.
 End Props.
+
+(* ------------------------------------------------------------------------------------ *)
+(** * Statements over ALL call histories *)
+
+(** a state of the class after any sequence of operations from a freshly constructed object *)
+Definition reachable (fin : Q -> bool) (s : st) : Prop :=
+  exists k thr n0 a ops, s = run fin (init k thr n0 a) ops.
+
+Lemma reachable_inv fin s : reachable fin s -> Inv fin s.
+Proof.
+  intros [k [thr [n0 [a [ops ->]]]]]. exact (proj1 (run_good fin ops _ (init_inv fin k thr n0 a))).
+Qed.
+
+Lemma reachable_step fin s o : reachable fin s -> reachable fin (fst (step fin s o)).
+Proof.
+  intros [k [thr [n0 [a [ops ->]]]]]. exists k, thr, n0, a, (ops ++ [o]).
+  generalize (init k thr n0 a). induction ops as [|x r IH]; intro s0; [reflexivity|]. cbn [run app]. apply IH.
+Qed.
+
+
+(** whatever preceded, the stored abscissae are strictly increasing, at least two, all with
+    finite rows *)
+Theorem abscissae_sorted fin s : reachable fin s -> hasT s = true ->
+  incr (tab s) /\ (2 <= length (tab s))%nat /\ (forall x, In x (tab s) -> fin x = true).
+Proof.
+  intros R Hh. destruct (proj1 (reachable_inv fin s R) Hh) as [? [? [_ [_ [_ ?]]]]]. auto.
+Qed.
+Print Assumptions abscissae_sorted.
+
+(** the reported range is [first, last] of the stored abscissae, and non-degenerate *)
+Theorem range_is_table_ends fin s : reachable fin s -> hasT s = true ->
+  rmin s = hd 0 (tab s) /\ rmax s = last (tab s) 0 /\ rmin s < rmax s.
+Proof.
+  intros R Hh. pose proof (reachable_inv fin s R) as [HT _].
+  destruct (HT Hh) as [_ [_ [? [? _]]]]. split; [assumption|]. split; [assumption|].
+  apply (range_nonempty fin); assumption.
+Qed.
+Print Assumptions range_is_table_ends.
+
+(** the current spline extrapolates iff a FUNCTION mode is selected -- after every operation *)
+Theorem extrapolate_flag fin s : reachable fin s -> hasT s = true ->
+  extrap s = (is_fun (mlo s) || is_fun (mhi s)).
+Proof.
+  intros R Hh. destruct (proj1 (reachable_inv fin s R) Hh) as [_ [_ [_ [_ [? _]]]]]. assumption.
+Qed.
+Print Assumptions extrapolate_flag.
+
+(** pending counter = number of pending points, and it is below the threshold after every
+    operation (the update fired whenever it was reached) *)
+Theorem counters_below_threshold fin s : reachable fin s ->
+  cnt s = length (pend s) /\ ((0 < cfg_thr s)%nat -> (cnt s < cfg_thr s)%nat).
+Proof. intro R. exact (proj2 (reachable_inv fin s R)). Qed.
+Print Assumptions counters_below_threshold.
+
+Theorem extension_never_fails fin s newMin newMax pLo pHi : reachable fin s -> hasT s = true ->
+  exists s', extend fin s newMin newMax pLo pHi = (s', Ok tt).
+Proof. intros R Hh. apply extend_total; [exact (proj1 (reachable_inv fin s R))|exact Hh]. Qed.
+Print Assumptions extension_never_fails.
+
+Theorem shape_contract fin s u sh pts s' sh' ts :
+  evaluate fin s u sh pts = (s', Ok (sh', ts)) ->
+  sh' = oshape (cfg_k s) sh /\ length ts = length pts.
+Proof. apply shape_contract_l. Qed.
+Print Assumptions shape_contract.
+
+Theorem dispatch_spec fin s sh pts : reachable fin s -> hasT s = true -> adaptive s = false ->
+  mlo s <> ERROR -> mhi s <> ERROR ->
+  evaluate fin s true sh pts = (s, Ok (oshape (cfg_k s) sh, map (spec_tag fin s 0) pts)).
+Proof. intros R. apply evaluate_spec_l. exact (reachable_inv fin s R). Qed.
+Print Assumptions dispatch_spec.
+
+Theorem inrange_spline fin s sh pts s' sh' ts i q : reachable fin s -> hasT s = true ->
+  evaluate fin s true sh pts = (s', Ok (sh', ts)) ->
+  nth_error pts i = Some q -> inrange s q = true -> nth_error ts i = Some (Spl 0 KIn q).
+Proof. intros R. apply inrange_spline_l. exact (reachable_inv fin s R). Qed.
+Print Assumptions inrange_spline.
+
+Theorem error_mode_raises fin s sh pts : reachable fin s -> hasT s = true -> adaptive s = false ->
+  ((exists q, In q pts /\ q < rmin s) /\ mlo s = ERROR) \/
+  ((exists q, In q pts /\ rmax s < q) /\ mhi s = ERROR) ->
+  evaluate fin s true sh pts = (s, Err EValue).
+Proof. intros R. apply evaluate_error_l. exact (reachable_inv fin s R). Qed.
+Print Assumptions error_mode_raises.
+
+Theorem evaluate_never_raises fin s sh pts : reachable fin s -> hasT s = true ->
+  mlo s <> ERROR -> mhi s <> ERROR ->
+  exists s' ts, evaluate fin s true sh pts = (s', Ok (oshape (cfg_k s) sh, ts)).
+Proof. intros R. apply evaluate_total_l. exact (reachable_inv fin s R). Qed.
+Print Assumptions evaluate_never_raises.
+
+Theorem derivative_dispatch fin s n sh pts dx pos : reachable fin s -> hasT s = true ->
+  adaptive s = false -> mlo s <> ERROR -> mhi s <> ERROR -> (n = 1 \/ n = 2)%nat ->
+  derivative fin s n true sh pts dx pos =
+  (s, Ok (oshape (cfg_k s) sh, map (dspec fin s n dx) pts)).
+Proof. intros R. apply deriv_spec_l. exact (reachable_inv fin s R). Qed.
+Print Assumptions derivative_dispatch.
+
+Theorem derivative_inrange fin s n sh pts dx pos s' sh' ts i q : reachable fin s -> hasT s = true ->
+  (n = 1 \/ n = 2)%nat -> derivative fin s n true sh pts dx pos = (s', Ok (sh', ts)) ->
+  nth_error pts i = Some q -> inrange s q = true -> nth_error ts i = Some (DOne (Spl n KIn q)).
+Proof. intros R. apply deriv_inrange_l. exact (reachable_inv fin s R). Qed.
+Print Assumptions derivative_inrange.
+
+Theorem derivative_shape fin s n u sh pts dx pos s' sh' ts :
+  derivative fin s n u sh pts dx pos = (s', Ok (sh', ts)) ->
+  sh' = oshape (cfg_k s) sh /\ length ts = length pts.
+Proof. apply deriv_shape_l. Qed.
+Print Assumptions derivative_shape.
+
+Theorem adaptive_trigger fin s pts :
+  let xv := usort (filter fin pts) in
+  incr xv /\
+  (xv = [] -> schedule fin s pts = (s, Ok tt)) /\
+  (xv <> [] -> (cnt s + length xv < cfg_thr s)%nat ->
+     schedule fin s pts = (set_adapt s (adaptive s) (cnt s + length xv) (pend s ++ xv), Ok tt)) /\
+  (xv <> [] -> (cfg_thr s <= cnt s + length xv)%nat ->
+     schedule fin s pts = adaptiveUpdate fin (set_adapt s (adaptive s) (cnt s + length xv) (pend s ++ xv))
+     /\ cnt (fst (schedule fin s pts)) = 0%nat /\ pend (fst (schedule fin s pts)) = []).
+Proof. split; [apply usort_incr_l|apply adaptive_trigger_l]. Qed.
+Print Assumptions adaptive_trigger.
+
+Theorem nonfinite_dropped_rowwise fin s a b n :
+  (forall s', newTable fin s a b n = (s', Ok tt) ->
+     tab s' = filter fin (linspace a b n) /\ hasT s' = true /\
+     rmin s' = hd 0 (tab s') /\ rmax s' = last (tab s') 0) /\
+  (a < b -> (2 <= length (filter fin (linspace a b n)))%nat ->
+     exists s', newTable fin s a b n = (s', Ok tt)).
+Proof. apply nonfinite_rows_l. Qed.
+Print Assumptions nonfinite_dropped_rowwise.
+
+Theorem roundtrip_table fin s : reachable fin s -> hasT s = true -> writeRead fin s = (s, Ok tt).
+Proof. intros R. apply roundtrip_l. exact (reachable_inv fin s R). Qed.
+Print Assumptions roundtrip_table.
+
+Theorem mode_change_rebuilds fin s a b : reachable fin s -> hasT s = true ->
+  exists s', setModes fin s a b = (s', Ok tt) /\ tab s' = tab s /\ rmin s' = rmin s /\
+             rmax s' = rmax s /\ mlo s' = a /\ mhi s' = b /\ extrap s' = (is_fun a || is_fun b).
+Proof. intros R. apply setModes_spec_l. exact (reachable_inv fin s R). Qed.
+Print Assumptions mode_change_rebuilds.
+
+(** the hypotheses are satisfiable and the statements not vacuous: a concrete history (a
+    function that is non-finite on [3/2, 3]) reaching a state with a table, then one call
+    through every branch *)
+Definition fin_ex (q : Q) : bool := negb (Qle_bool (3 # 2) q && Qle_bool q 3).
+Definition s_ex : st :=
+  run fin_ex (init 2 3 10 true)
+      [Evaluate true [] [1 # 2]; Evaluate true [2%nat] [1 # 4; 2]; NewTable 0 2 9; Extend (-1) 3 2 4;
+       DisableAdaptive; SetModes CONSTANT FUNCTION].
+Example witness :
+  reachable fin_ex s_ex /\ hasT s_ex = true /\ adaptive s_ex = false /\
+  tab s_ex = [-1; -1 # 2; 0; 1 # 4; 1 # 2; 3 # 4; 1; 5 # 4] /\ extrap s_ex = true /\
+  snd (evaluate fin_ex s_ex true [3%nat] [-2; 1 # 3; 2]) =
+    Ok ([3%nat; 2%nat], [Spl 0 KIn (-1); Spl 0 KIn (1 # 3); Spl 0 KExt 2]) /\
+  snd (derivative fin_ex s_ex 1 true [2%nat] [1; 321 # 256] (1 # 256) []) =
+    Ok ([2%nat; 2%nat], [DOne (Spl 1 KIn 1);
+                         DFD [Spl 0 KIn (319 # 256); Spl 0 KIn (5 # 4); Spl 0 KExt (161 # 128);
+                              Spl 0 KExt (323 # 256)]]).
+Proof.
+  split; [do 5 eexists; reflexivity|]. vm_compute. repeat split; reflexivity.
+Qed.
+Print Assumptions witness.
+
+(* ------------------------------------------------------------------------------------ *)
+(** * Facts read off the source on this run agree with the model (kept last: a change of the
+      source outline must not hide the theorems above) *)
+Theorem facts_agree :
+  src_stencil1 = stencil 1 /\ src_stencil2 = stencil 2 /\ src_fd_order = 4%nat /\
+  src_fd_call_plain = true /\ src_modes_before_rebuild = true /\ src_range_from_filtered = true /\
+  src_flag_is_function_mode = true /\ src_append_frac_table == 1 # 5 /\
+  src_append_frac_notable == 1 # 2 /\ src_skip_single_point = true.
+Proof. vm_compute. repeat split; reflexivity || discriminate. Qed.
+Print Assumptions facts_agree.
